@@ -250,7 +250,7 @@ def observe_case(st):
     """one case for EquivObs.tla"""
     cfg = st["cfg"]
     nets, ok_a, obs_a = _original(st)
-    out = {"cfg": cfg, "okA": ok_a, "A": obs_a, "okB": False, "applied": False, "err": "", "B": {t: {} for t in COLS},
+    out = {"cfg": cfg, "okA": ok_a, "A": obs_a, "okB": False, "applied": False, "err": "", "errB": "", "B": {t: {} for t in COLS},
            "projB": {t: {} for t in ORDER}, "changed": bool(st.get("changed", True))}
     try:
         b = transform(st, [copy.deepcopy(n) for n in nets])
@@ -263,18 +263,20 @@ def observe_case(st):
     out["projB"] = project(b)
     conv, err = solve(b, cfg)
     out["okB"] = conv
+    # non-convergence is counted (vacuous); any other exception of the power flow on the transformed network is an observation
+    out["errB"] = "" if conv else ("notconv" if err in ("", "LoadflowNotConverged") else "error")
     if err:
-        out["err"] = err
+        out["err"] = "runpp on the transformed network: " + err
     out["B"] = observe(b, conv)
     return out
 
 
-def enumerate_states(prop, seed, nrandom):
+def enumerate_states(prop, seed, nrandom, ncorner=1):
     """run the model Equiv.tla for one property; returns (TLCResult, [state dicts])"""
     wd = tempfile.mkdtemp(prefix="ppverif_equiv_")
     try:
         name = "Equiv%s.cfg" % prop
-        s = open(os.path.join(SPEC_DIR, name)).read().replace("NRandom = 10", "NRandom = %d" % nrandom)
+        s = open(os.path.join(SPEC_DIR, name)).read().replace("NRandom = 10", "NRandom = %d" % nrandom).replace("NCorner = 1", "NCorner = %d" % ncorner)
         open(os.path.join(wd, name), "w").write(s)
         r = run_tlc("Equiv", name, workdir=wd, dump=True, seed=seed, timeout=3000)
     finally:
@@ -332,8 +334,8 @@ def run_prop(prop, tier, seed, replay=None):
         mstates = mtrans = 1
     else:
         from .common import get_pool
-        get_pool(12)                          # workers import pandapower while TLC enumerates the model
-        r, states = enumerate_states(prop, seed, 10 if tier == "quick" else 120)
+        get_pool(8 if tier == "quick" else 16)   # workers import pandapower while TLC enumerates the model
+        r, states = enumerate_states(prop, seed, *((10, 1) if tier == "quick" else (80, 2)))
         for name, st, raw in r.violations:
             v.divergence("model-level invariant %s violated" % name, jsonable(st["cfg"]) if isinstance(st, dict) and "cfg" in st else None)
         mstates, mtrans = r.distinct, r.generated
@@ -361,13 +363,14 @@ def run_prop(prop, tier, seed, replay=None):
     v.coverage = {
         "evaluations": len(cases),
         "distinct_nontrivial": len({repr(sorted(c["cfg"].items())) for c in good if c["changed"]}),
-        "rule": "states of Equiv.tla: every (transformation, target) candidate on two corner base variants plus, per transformation, a TLC "
+        "rule": "states of Equiv.tla: every (transformation, target) candidate on one (quick) / two (thorough) corner base variants plus, per transformation, a TLC "
                 "RandomSubset (seeded) of candidates x 192 base variants (load level, ring line, calculate_voltage_angles, trafo_model, sn_mva, index layout, end of "
                 "the open line switch), filtered by the spec's Applicable; non-trivial = the transformed abstract network differs from the "
                 "original, the transformation was carried out and both power flows converged",
         "states": mstates + ost["states"], "transitions": mtrans + ost["generated"], "traces_validated_against_impl": len(cases),
         "both_converged": len([c for c in cases if c["okA"] and c["okB"]]),
-        "not_converged": len([c for c in cases if c["applied"] and not (c["okA"] and c["okB"])]),
+        "not_converged": len([c for c in cases if c["applied"] and not (c["okA"] and c["okB"]) and c["errB"] != "error"]),
+        "runpp_error_on_transformed": len([c for c in cases if c["errB"] == "error"]),
         "transformation_failed": len([c for c in cases if not c["applied"]]),
         "cases_with_sum_entries": len([c for c in good if c["cfg"]["tr"] in SUM_TR]),
         "cases_with_renamed_entries": len([c for c in good if c["cfg"]["tr"] in REN_TR]),
